@@ -40,12 +40,13 @@ def gen_synthetic(run, i):
     n = rng.choice([1, 2, 3])
     h, w = rng.randint(20, 70), rng.randint(20, 70)
     model = MODELS[i % 3]
-    thresh = rng.choice([0.25, 0.25, 0.5, 0.0, None]) if model == 'gain_offset' else 0.25
+    # (the API accepts any threshold; R2 of a poor fit is negative, of an exact fit 1.0)
+    thresh = rng.choice([0.25, 0.25, 0.5, 0.0, None, -0.3, 1.5, 1.0]) if model == 'gain_offset' else 0.25
     data = np.zeros((3 * n, h, w), dtype='float32')
     for b in range(3 * n):
         k = b // n
         if k == 2:
-            data[b] = np.array([[rng.random() for _ in range(w)] for _ in range(h)], dtype='float32')
+            data[b] = np.array([[rng.choice([1.0, rng.uniform(-0.6, 1.0), rng.random(), rng.random()]) for _ in range(w)] for _ in range(h)], dtype='float32')
         else:
             # value range per band: mixed sign, all negative (e.g. the offsets of a hazy source), all positive, constant
             lo, hi = [(-3, 8), (-9, -1), (2, 8), (-3, 8), (-0.5, -0.5)][(i + b) % 5] if b != 0 else (-3, 8)
